@@ -3,9 +3,9 @@
     types; N, Z, positive, nat stay inductive. *)
 Require Extraction.
 Require Import ExtrOcamlBasic.
-From GV Require Import Base.Bytes Base.GoStr Base.Regex Runtime.Rt Compiler.Tok Compiler.Lexer Compiler.Parser Compiler.Emit Compiler.SrcMap Compiler.Compile Proxy.AddImport Proxy.Proxy Cli.Generate Runtime.Children Runtime.Pool Runtime.Render Proofs.FragCheck Proofs.ParserTermProofs Proofs.NukeDocProofs.
+From GV Require Import Base.Bytes Base.GoStr Base.Regex Runtime.Rt Compiler.Tok Compiler.Lexer Compiler.Parser Compiler.Emit Compiler.SrcMap Compiler.Compile Proxy.AddImport Proxy.Proxy Cli.Generate Runtime.Children Runtime.Pool Runtime.Render Proofs.FragCheck Proofs.ParserTermProofs Proofs.NukeDocProofs Proofs.HtmlTokProofs.
 Extraction "model.ml" lit html_escape html_unescape5 decode_rune encode_rune rune_count
   build_class_list build_attr_list object_id object_class goht_if itoa
   go_quote go_quote_rune toktype_name token_string new_lexer next_token lex_fuel
   compile_parse generate compose tree_dump perr_string sm_entries keys_unique s2t t2s go_unquote cli_generate lsp_compose nuke proxy_add_import detail_package imports_of apply_insert
-  run ps_init model_compile goht_generate exec_template denote_template pool_run world_init render_top document file_in_fragment compile_parse_with doc_check.
+  run ps_init model_compile goht_generate exec_template denote_template pool_run world_init render_top document file_in_fragment compile_parse_with doc_check hrun.
